@@ -289,7 +289,12 @@ def handle_gen(rng, tier):
                 client = rng.choice(["-", "192.0.2.%d" % rng.randrange(256), "203.0.113.7", "2001:db8:1:2:3:4:5:%x" % rng.randrange(65536),
                                      "::ffff:198.51.100.%d" % rng.randrange(256), "::1", "fe80::1"])
                 hv = ""
-                if rng.random() < 0.06:
+            elif l != "udpmr" and rng.random() < 0.4:
+                # the client's SOURCE address on the socket listeners (any address of 127/8 is local): what the proxy sees
+                # as the peer decides ECS, limiter subnet and cache group on udp / tcp / gnet / tls / quic too
+                client = "127.%d.%d.%d" % (rng.choice([0, 1, 9, 200]), rng.randrange(256), rng.randrange(1, 255))
+            if (l.startswith("http") or l.startswith("fasthttp")):
+              if rng.random() < 0.06:
                     # the client-address header as a LIST (the first element counts) or with a value that is no address:
                     # the request must be answered 400 and nothing may be forwarded on its behalf
                     if rng.random() < 0.4:
